@@ -184,7 +184,7 @@ def judge_orth(ctx, inp, out, where):
         return dict(f, corr=corr, lam=lam, nontrivial=(M > 1 and corr >= 0.5))
 
 
-def judge_weights(ctx, model, probes, where):
+def judge_weights(ctx, model, probes, where, want_I=None):
     """initial probe: total diffraction intensity = mean intensity; relative mode weights = requested."""
     import torch
 
@@ -197,7 +197,7 @@ def judge_weights(ctx, model, probes, where):
             p = p[None]
         M = p.shape[0]
         f = dict(where=where, modes=M, precision="single" if probes.dtype == torch.complex64 else "double")
-        want_I = float(model.mean_diffraction_intensity)
+        want_I = float(model.mean_diffraction_intensity) if want_I is None else float(want_I)  # the caller's requested value when known
         want_w = _np(model.initial_probe_weights).astype(np.float64)
         want_w = want_w / want_w.sum()
         tot = float((np.abs(np.fft.fft2(p, norm="ortho")) ** 2).sum())
@@ -396,7 +396,16 @@ def _run_weights(spec, idx, ctx):
         pm.set_initial_probe((h, w), rs, mean_I)
     finally:
         st["live"] = None
-    judge_weights(ctx, pm, pm.initial_probe, where="direct_public")
+    judge_weights(ctx, pm, pm.initial_probe, where="direct_public", want_I=mean_I)
+    if i % 3 == 0:
+        # history: the same probe model initialised again for data with another mean intensity (re-preprocessing, another dataset)
+        mean_I = float(mean_I * 10.0 ** rng.uniform(-2, 2))
+        st["live"] = {"where": "direct_hook"}
+        try:
+            pm.set_initial_probe((h, w), rs, mean_I)
+        finally:
+            st["live"] = None
+        judge_weights(ctx, pm, pm.initial_probe, where="direct_public_reinit", want_I=mean_I)
     # the raw parameters start at the initial probe, and the constrained probe keeps the total (orthogonalisation preserves intensities)
     if via == "array":  # (random modes: inside the orthogonalisation's domain)
         with torch.no_grad():
